@@ -132,7 +132,7 @@ def run(run, P):
                               'for a body of %d byte(s), a block at offset %d carrying %d byte(s), `%s` gives M=%d but %d byte(s) remain behind the block (M must be %d): the '
                               'transfer %s' % (L, O, X, short(r)[:70], got, max(0, L - O - X), want,
                                                'ends one block early, the body is truncated' if want else 'asks for a block that does not exist'), [])
-    run.require(n >= (6 if run.cfg == 'base' else 1) or run.fixture_mode, 'R-BLK-MORE: fewer than 6 computed More bits found (expected setup_block_b, coap_send_q_blocks, coap_handle_request_send_block, ...)')
+    run.require_count(n >= (6 if run.cfg == 'base' else 1) or run.fixture_mode, 'R-BLK-MORE: fewer than 6 computed More bits found (expected setup_block_b, coap_send_q_blocks, coap_handle_request_send_block, ...)')
 
 
 def run_size_sync(run, P):
@@ -220,7 +220,7 @@ def run_size_sync(run, P):
                               '`%s` reads the block record\'s chunk_size, which still holds the size REQUESTED in the option, although %s() has selected its own block size '
                               '(%s) and has not yet written it back to the record: the decision is taken on the wrong block size whenever the message cannot carry the '
                               'requested one' % (txt, f['name'], ', '.join(sorted(set(short_name(P, f, v) for v in sizes.values())))), [])
-    run.require(n >= 1 or run.fixture_mode or run.cfg != 'base', 'R-BLK-MORE(one block size): no read of a block record\'s chunk_size in a size-selecting function found (expected coap_add_data_large_internal)')
+    run.require_count(n >= 1 or run.fixture_mode or run.cfg != 'base', 'R-BLK-MORE(one block size): no read of a block record\'s chunk_size in a size-selecting function found (expected coap_add_data_large_internal)')
 
 
 def short_name(P, f, key_):
@@ -229,3 +229,89 @@ def short_name(P, f, key_):
             if isinstance(x, dict) and x.get('k') == 'var' and ap(x) == key_:
                 return x['n']
     return key_
+
+
+def run_size_field(run, P):
+    """R-BLK-MORE (the record knows the size in use): the transfer record keeps the block size exponent every later block is cut with
+    (`lg_xmit->blk_size`).  In a function that selects the size itself (a local exponent E with `chunk = 1 << (E + 4)`) and stores it into
+    a record (`R->f = E`), a later re-assignment of E -- the first block did not fit after the options were added, the size is reduced --
+    is followed on every path to a return by another store of E into the same field, unless the record is handed to a deleter.  A first
+    block sent with the reduced size while the record keeps the larger one makes the server refuse the client's request for block 1
+    ("changing blocksize during request") -- the transfer never completes."""
+    from core.psts import Env, solve, relevance, apply_generic
+    run.rule('R-BLK-MORE')
+    n = 0
+    for f in sorted(P.lib_funcs(), key=lambda f: f['name']):
+        exps = set()
+        for b, ev in P.events(f):
+            t = ev['e']
+            if t.get('k') == 'asg' and t.get('op') == '=' and ev.get('top', True):
+                for x in walk(t['r']):
+                    if isinstance(x, dict) and x.get('k') == 'bin' and x.get('op') == '<<' and const_int(x['l']) == 1:
+                        sh = strip(x['r'])
+                        if isinstance(sh, dict) and sh.get('k') == 'bin' and sh.get('op') == '+' and const_int(sh['r']) == 4:
+                            e = strip(sh['l'])
+                            if isinstance(e, dict) and e.get('k') == 'var' and e.get('pi') is None:
+                                exps.add(ap(e))
+        if not exps:
+            continue
+        stores, defs = [], []
+        for b, ev in P.events(f):
+            t = ev['e']
+            if t.get('k') == 'asg' and t.get('op') == '=' and ev.get('top', True):
+                l = strip(t['l'])
+                r = strip(t['r'])
+                while isinstance(r, dict) and r.get('k') == 'cast':
+                    r = strip(r['e'])
+                if isinstance(l, dict) and l.get('k') == 'mem' and l.get('arrow') and ap(l) and isinstance(r, dict) and r.get('k') == 'var' and ap(r) in exps:
+                    stores.append((ev, ap(l), ap(r), ap(l.get('b'))))
+                if isinstance(l, dict) and l.get('k') == 'var' and ap(l) in exps:
+                    defs.append((ev, ap(l)))
+        if not stores:
+            continue
+        name = f['name']
+        recs = set(s_[3] for s_ in stores)
+
+        def is_rule_event(ev):
+            t = ev['e']
+            return any(ev is s_[0] for s_ in stores) or any(ev is d[0] for d in defs) or \
+                (t.get('k') == 'call' and 'delete' in (t.get('fn') or '') and any(ap(strip(a)) in recs for a in t.get('a') or () if isinstance(strip(a), dict)))
+        keys, R = relevance(f, is_rule_event)
+        rep = set()
+
+        def on_event(ev, env, ctx):
+            t = ev['e']
+            for sev, fp, e_, rec in stores:
+                if ev is sev:
+                    x = apply_generic(ev, env, R).copy()
+                    x.ts['synced'] = frozenset(env.ts.get('synced', frozenset()) | {(fp, e_)})
+                    x.ts['stale'] = frozenset(y for y in env.ts.get('stale', frozenset()) if y[0] != fp)
+                    return [x]
+            for dev, e_ in defs:
+                if ev is dev:
+                    hit = [y for y in env.ts.get('synced', frozenset()) if y[1] == e_]
+                    if hit:
+                        x = apply_generic(ev, env, R).copy()
+                        x.ts['stale'] = frozenset(env.ts.get('stale', frozenset()) | {(y[0], ev['loc']) for y in hit})
+                        return [x]
+            if t.get('k') == 'call' and 'delete' in (t.get('fn') or '') and env.ts.get('stale'):
+                gone = [ap(strip(a)) for a in t.get('a') or () if isinstance(strip(a), dict) and ap(strip(a)) in recs]
+                if gone:
+                    x = apply_generic(ev, env, R).copy()
+                    x.ts['stale'] = frozenset(y for y in env.ts['stale'] if not any(y[0].startswith(g + '->') for g in gone))
+                    return [x]
+            return None
+
+        def on_exit(env, ctx):
+            for fp, loc in env.ts.get('stale', ()):
+                run.oblige('R-BLK-MORE', False, '%s:record-follows-selected-size' % name)
+                if loc not in rep:
+                    rep.add(loc)
+                    run.violation('R-BLK-MORE', name, loc, 'record-keeps-old-block-size',
+                                  'the selected block size exponent is changed here after it was stored in the transfer record, and the function returns on a path that does '
+                                  'not store it again: the first block goes out with the new size while every later block is cut (and checked) with the old one', ctx.path())
+            run.oblige('R-BLK-MORE', not env.ts.get('stale'), '%s:size-field-exit' % name)
+        n += len(stores)
+        run.instance('R-BLK-MORE', '%s: the record\'s size field follows every change of the selected size (%d store(s))' % (name, len(stores)))
+        solve(f, Env(), on_event, on_exit, keys, R, key_fn=lambda e: (e.ts.get('synced'), frozenset(y[0] for y in e.ts.get('stale', ()))))
+    run.require_count(n >= 1 or run.fixture_mode or run.cfg != 'base', 'R-BLK-MORE(size field): no store of a selected block size into a record found (expected coap_add_data_large_internal)')
